@@ -1,0 +1,82 @@
+package sigand
+
+import (
+	"github.com/bronlabs/errs-go/errs"
+
+	"github.com/bronlabs/bron-crypto/pkg/base/serde"
+	"github.com/bronlabs/bron-crypto/pkg/base/utils"
+	"github.com/bronlabs/bron-crypto/pkg/proofs/sigma"
+)
+
+// The composed commitments and responses are the deserialisation trust boundary of a proof:
+// Bytes and Verify dereference every branch, so a branch that is CBOR null (or missing) must be
+// refused while decoding. The wire format is the default one of the underlying slice / struct.
+
+func unmarshalBranches[T any](data []byte, what string) ([]T, error) {
+	branches, err := serde.UnmarshalCBOR[[]T](data)
+	if err != nil {
+		return nil, errs.Wrap(err).WithMessage("cannot unmarshal %s", what)
+	}
+	for i, b := range branches {
+		if utils.IsNil(b) {
+			return nil, ErrInvalidArgument.WithMessage("%s of branch %d cannot be nil", what, i)
+		}
+	}
+	return branches, nil
+}
+
+// UnmarshalCBOR deserialises an AND-composed commitment and rejects nil branches.
+func (a *Commitment[A]) UnmarshalCBOR(data []byte) error {
+	branches, err := unmarshalBranches[A](data, "commitment")
+	if err != nil {
+		return err
+	}
+	*a = branches
+	return nil
+}
+
+// UnmarshalCBOR deserialises an AND-composed response and rejects nil branches.
+func (z *Response[Z]) UnmarshalCBOR(data []byte) error {
+	branches, err := unmarshalBranches[Z](data, "response")
+	if err != nil {
+		return err
+	}
+	*z = branches
+	return nil
+}
+
+type commitmentCartesianDTO[A0, A1 sigma.Commitment] struct {
+	A0 A0
+	A1 A1
+}
+
+// UnmarshalCBOR deserialises a binary AND-composed commitment and rejects nil branches.
+func (a *CommitmentCartesian[A0, A1]) UnmarshalCBOR(data []byte) error {
+	dto, err := serde.UnmarshalCBOR[*commitmentCartesianDTO[A0, A1]](data)
+	if err != nil {
+		return errs.Wrap(err).WithMessage("cannot unmarshal commitment")
+	}
+	if dto == nil || utils.IsNil(dto.A0) || utils.IsNil(dto.A1) {
+		return ErrInvalidArgument.WithMessage("branch commitments cannot be nil")
+	}
+	a.A0, a.A1 = dto.A0, dto.A1
+	return nil
+}
+
+type responseCartesianDTO[Z0, Z1 sigma.Response] struct {
+	Z0 Z0
+	Z1 Z1
+}
+
+// UnmarshalCBOR deserialises a binary AND-composed response and rejects nil branches.
+func (z *ResponseCartesian[Z0, Z1]) UnmarshalCBOR(data []byte) error {
+	dto, err := serde.UnmarshalCBOR[*responseCartesianDTO[Z0, Z1]](data)
+	if err != nil {
+		return errs.Wrap(err).WithMessage("cannot unmarshal response")
+	}
+	if dto == nil || utils.IsNil(dto.Z0) || utils.IsNil(dto.Z1) {
+		return ErrInvalidArgument.WithMessage("branch responses cannot be nil")
+	}
+	z.Z0, z.Z1 = dto.Z0, dto.Z1
+	return nil
+}
